@@ -267,6 +267,19 @@ func (c *Conn) GetAutoCommit() bool {
 	return c.autoCommit
 }
 
+// resetAfterTx puts the connection back into the state it has between
+// transactions once a transaction on it has ended. database/sql only calls
+// ResetSession when a connection returns to the pool: on a connection the
+// application keeps (sql.Conn) the finished transaction's mode and context
+// would otherwise govern every later statement
+func (c *Conn) resetAfterTx() {
+	if c == nil {
+		return
+	}
+	c.autoCommit = true
+	c.txCtx = types.NewTxCtx()
+}
+
 // Close invalidates and potentially stops any current
 // prepared statements and transactions, marking this
 // connection as no longer in use.
